@@ -218,6 +218,33 @@ theorem importMod_congr (w : World) (m : Mod) {st st' : St} (h : StEq st st') :
         | some e => exact ⟨rfl, hs⟩
         | none => exact execMod_congr w m hs
 
+theorem afterNotFound_congr (w : World) (m : Mod) {st st' : St} (h : StEq st st') :
+    StEq (afterNotFound w st m) (afterNotFound w st' m) := by
+  unfold afterNotFound
+  cases m.sub with
+  | none => exact h
+  | some s =>
+    simp only
+    have h1 := execMod_congr w ⟨m.pkg, none⟩ h
+    cases he : execMod w st ⟨m.pkg, none⟩ with
+    | none =>
+      cases he' : execMod w st' ⟨m.pkg, none⟩ with
+      | none => exact h
+      | some y => rw [he, he'] at h1; exact h1.elim
+    | some x =>
+      cases he' : execMod w st' ⟨m.pkg, none⟩ with
+      | none => rw [he, he'] at h1; exact h1.elim
+      | some y =>
+        rw [he, he'] at h1
+        obtain ⟨s1, e1⟩ := x
+        obtain ⟨s1', e1'⟩ := y
+        obtain ⟨hee, hs⟩ := h1
+        simp only at hee hs
+        subst hee
+        cases e1 with
+        | some e => exact h
+        | none => exact hs
+
 theorem loadPath_congr (w : World) (p : PathE) {st st' : St} (h : StEq st st') :
     ResEq (loadPath w st p) (loadPath w st' p) := by
   unfold loadPath
@@ -225,7 +252,7 @@ theorem loadPath_congr (w : World) (p : PathE) {st st' : St} (h : StEq st st') :
   cases hi : importMod w st p.mod with
   | none =>
     cases hi' : importMod w st' p.mod with
-    | none => exact ⟨rfl, h⟩
+    | none => exact ⟨rfl, afterNotFound_congr w p.mod h⟩
     | some y => rw [hi, hi'] at h1; exact h1.elim
   | some x =>
     cases hi' : importMod w st' p.mod with
